@@ -17,7 +17,7 @@ from typing import Dict, List, Optional, Tuple
 import z3
 
 CVC5 = shutil.which("cvc5")
-Z3BIN = shutil.which("z3")
+Z3BIN = shutil.which("z3-new") or shutil.which("z3")
 
 STATS = {"z3py": 0, "cvc5": 0, "z3bin": 0, "unknown": 0, "ext_s": 0.0}
 
@@ -214,7 +214,8 @@ def _external(s: z3.Solver, assertions, budget_ms, model_vars):
             procs.append(("cvc5", subprocess.Popen([CVC5, "--lang=smt2", f"--tlimit={int(budget_ms)}", path],
                                                    stdout=subprocess.PIPE, stderr=subprocess.PIPE, text=True)))
         z3_started = False
-        if Z3BIN and not CVC5:
+        if Z3BIN:
+            # race both back ends: cvc5 wins the FP kernels with constant divisors, z3 wins others (servo linear map)
             z3_started = True
             procs.append(("z3bin", subprocess.Popen([Z3BIN, f"-T:{secs}", path],
                                                     stdout=subprocess.PIPE, stderr=subprocess.PIPE, text=True)))
